@@ -245,6 +245,9 @@ def judge(ctx, form, klass, sig, sample=False, xform=None):
                     from .C05 import value_pattern
                     if value_pattern(calc).match(s.get("value") or "") is None:
                         ctx.viol("trigger:value-differs", f"{e.path}: setvalue value {s.get('value')!r} for calculation {calc!r}", wit())
+                if not calc and bt != "background-geopoint" and s.get("value") not in (None, ""):
+                    # a trigger without a calculation clears the field: whatever value the action carries was written for some other row
+                    ctx.viol("trigger:value-of-another-row", f"{e.path} has a trigger but no calculation, yet its setvalue carries value={s.get('value')!r}", wit())
                 if bt == "background-geopoint" and s.get("value") is not None:
                     ctx.viol("trigger:setgeopoint-has-value", f"{e.path}", wit())
             b = binds.get(e.path)
@@ -303,6 +306,36 @@ def run_shard(ctx):
                     Row(sk, f"begin {sk}", "tl", {"label": "TL", "appearance": "table-list"}, [Row("q", "select_one l1", "s1", first), Row("q", "select_one l1", "s2", {"label": "second", "default": "b"})])]
         f.choices = {"l1": [{"name": "a", "label": "A"}, {"name": "b", "label": "B"}]}
         judge(ctx, f, "table-list", f"table-list|{sk}|{what}")
+    # one question name used in several groups/repeats (legal: names are unique per section), each copy with its own kind of default
+    kinds = [("static", "pending"), ("dynamic", "uuid()"), ("static", "unknown"), ("dynamic", "${src} + 1"), ("none", None)]
+    for k, combo in enumerate(itertools.permutations(kinds, 3)):
+        n += 1
+        if not ctx.mine(n) or (ctx.tier == "quick" and k % 4):
+            continue
+        f = Form()
+        f.survey = [Row("q", "integer", "src", {"label": "S"})]
+        for j, (kd, dv) in enumerate(combo):
+            sk = ["group", "repeat", "group"][(j + k) % 3]
+            cells = {"label": "code"}
+            if dv is not None:
+                cells["default"] = dv
+            f.survey.append(Row(sk, f"begin {sk}", f"sec{j}", {"label": f"S{j}"}, [Row("q", "text", "code", cells), Row("q", "text", f"pad{j}", {"label": "p"})]))
+        judge(ctx, f, "same-name", f"same-name|{'+'.join(x[0] for x in combo)}|{k % 3}")
+    # one trigger, several targets in a row, some of them without a calculation (the action then clears the field: no value attribute)
+    for k, pattern in enumerate(itertools.product(("calc", "nocalc"), repeat=3)):
+        for inrep in (False, True):
+            n += 1
+            if not ctx.mine(n):
+                continue
+            rows = [Row("q", "text", "src", {"label": "S"})]
+            for j, pk in enumerate(pattern):
+                cells = {"label": f"t{j}", "trigger": "${src}"}
+                if pk == "calc":
+                    cells["calculation"] = ["0", "concat(${src}, 'x')", "substr(${src}, 0, 1)"][j]
+                rows.append(Row("q", ["integer", "text", "text"][j], f"tg{j}", cells))
+            f = Form()
+            f.survey = [Row("repeat", "begin repeat", "rp", {"label": "R"}, rows)] if inrep else rows
+            judge(ctx, f, "multi-target", f"multi-target|{'+'.join(pattern)}|{int(inrep)}")
     for i in range(pl["n_random"]):
         if not ctx.mine(i):
             continue
